@@ -155,7 +155,33 @@ type libParse struct {
 	sdoc   *ast.SchemaDocument
 }
 
+// disturbParser makes one earlier call into the parser package, chosen by the text itself (so a
+// replay repeats it): a parse must not depend on what was parsed before it, in particular not
+// on a token limit given to an earlier call.
+func disturbParser(text string) {
+	h := 0
+	for i := 0; i < len(text); i++ {
+		h = h*31 + int(text[i])
+	}
+	if h < 0 {
+		h = -h
+	}
+	kit.Safely(func() {
+		switch h % 6 {
+		case 0:
+			parser.ParseQueryWithTokenLimit(&ast.Source{Input: "{ a b c d e f }"}, 3)
+		case 1:
+			parser.ParseSchemaWithLimit(&ast.Source{Input: "type T { a: Int b: Int }"}, 4)
+		case 2:
+			parser.ParseQueryWithTokenLimit(&ast.Source{Input: "{ a }"}, 3)
+		case 3:
+			parser.ParseSchemaWithLimit(&ast.Source{Input: "scalar S"}, 2)
+		}
+	})
+}
+
 func libParseText(text string, schema bool) (lp libParse) {
+	disturbParser(text)
 	lp.panic = kit.Safely(func() {
 		if schema {
 			d, err := parser.ParseSchema(&ast.Source{Input: text})
